@@ -116,7 +116,8 @@ Inductive op :=
 | OpRead (name : bytes)                         (* config.<name> *)
 | OpNeedsSave                                   (* config.needs_save() *)
 | OpEvent (items : list (bytes * option bytes)) (* Tor sends 650 CONF_CHANGED: Key=Value / Key lines *)
-| OpSocks.                                      (* config.socks_endpoint(reactor) *)
+| OpSocks                                       (* config.socks_endpoint(reactor) *)
+| OpCopy (dst src : bytes).                     (* config.<dst> = config.<src>: the object a read of <src> returns is assigned *)
 
 (* ---- observations ---- *)
 (* what a read returned: a scalar, or a list (is it a tracked list; str() of each element) *)
